@@ -128,7 +128,7 @@ def model_line(case: dict) -> str:
             toks += [str(u), str(v)]
         return " ".join(toks)
     if fn in ("relabel", "import"):
-        toks = ["LB", "rs" if fn == "relabel" else "imp"] + enc_arr(frames_of(case))
+        toks = ["LB", "rs" if fn == "relabel" else case.get("variant", "imp")] + enc_arr(frames_of(case))
         toks.append(str(len(case["gnodes"])))
         toks += [str(n) for n in case["gnodes"]]
         toks.append(str(len(case["edges"])))
@@ -373,6 +373,34 @@ def oracle(case: dict, payload: dict) -> tuple[str, str] | None:
                             f"expected {t}/{sg}")
         return None
     raise ValueError(fn)
+
+
+# ------------------------------------------------------------------------------------------------
+# fixed corpus: the witnesses of the Lean counterexample theorems, run first in every run
+#   C19_counterexample_unfixed, C13_chained_counterexample, C13_counterexample_skip_unlisted
+
+CORPUS = {
+    "C19": [
+        {"fn": "ensure_unique", "multiseg": False, "shape": [3, 2], "dtype": "uint64",
+         "data": [1, 2, 0, 0, 1, 0]},
+        {"fn": "ensure_unique", "multiseg": True, "shape": [3, 1, 2], "dtype": "uint16",
+         "data": [1, 2, 0, 0, 1, 0]},
+        {"fn": "bytrack", "shape": [3, 3], "dtype": "uint16", "data": [7, 7, 0, 7, 8, 9, 5, 6, 0],
+         "nodes": [[1, 0, 7], [2, 1, 7], [3, 1, 8], [4, 2, 5], [5, 2, 6]],
+         "edges": [[1, 2], [1, 3], [2, 4]]},
+    ],
+    "C13": [
+        {"fn": "relabel", "shape": [1, 2], "dtype": "uint16", "data": [1, 2],
+         "rows": [[2, 1, 0], [1, 2, 0]], "gnodes": [1, 2], "edges": [], "dask": False, "mode": "corpus"},
+        {"fn": "relabel", "shape": [2, 4], "dtype": "uint16", "data": [5, 7, 0, 5, 5, 9, 1, 0],
+         "rows": [[0, 5, 0], [5, 5, 1], [7, 9, 1], [9, 1, 1]], "gnodes": [0, 5, 7, 9],
+         "edges": [[0, 5], [0, 7], [5, 9]], "dask": True, "mode": "corpus"},
+        {"fn": "import", "shape": [1, 2, 2], "dtype": "uint16", "data": [1, 0, 0, 3],
+         "rows": [[3, 3, 0]], "gnodes": [3], "edges": [], "dask": False, "mode": "corpus"},
+        {"fn": "import", "shape": [1, 2, 2], "dtype": "uint16", "data": [1, 2, 0, 0],
+         "rows": [[2, 1, 0], [1, 2, 0]], "gnodes": [2, 1], "edges": [], "dask": False, "mode": "corpus"},
+    ],
+}
 
 
 # ------------------------------------------------------------------------------------------------
@@ -806,13 +834,17 @@ def nontrivial(case: dict, out) -> bool:
 
 
 def _shard(args) -> Result:
-    prop, seed, counts, intensify = args
+    prop, seed, counts, intensify, first = args
     rng = random.Random(seed)
     res = Result(rule=RULE[prop])
     pending: list[tuple[dict, str]] = []  # (case, real canonical)
     seen_sig: set[str] = set()
 
     plan: list[Callable[[], dict]] = []
+    if first:
+        for c in CORPUS[prop]:
+            plan.append(lambda c=c: dict(c))
+        res.count("corpus-cases", len(CORPUS[prop]))
     if prop == "C19":
         plan += [lambda: gen_ensure_unique(rng)] * counts["eu"]
         plan += [lambda: gen_bytrack(rng)] * counts["bt"]
@@ -909,11 +941,12 @@ def _shard(args) -> Result:
     return res
 
 
+# cases per shard (16 shards on this machine)
 COUNTS = {
-    ("C19", "quick"): {"eu": 700, "bt": 500, "bt_ill": 80},
-    ("C19", "thorough"): {"eu": 6000, "bt": 5000, "bt_ill": 600},
-    ("C13", "quick"): {"rs": 500, "rs_ill": 60, "imp": 25},
-    ("C13", "thorough"): {"rs": 5000, "rs_ill": 500, "imp": 250},
+    ("C19", "quick"): {"eu": 3000, "bt": 2500, "bt_ill": 300},
+    ("C19", "thorough"): {"eu": 40000, "bt": 30000, "bt_ill": 3000},
+    ("C13", "quick"): {"rs": 2500, "rs_ill": 250, "imp": 150},
+    ("C13", "thorough"): {"rs": 30000, "rs_ill": 3000, "imp": 2500},
 }
 
 
@@ -925,7 +958,7 @@ def run(prop: str, tier: str, seed: int, intensify: bool = False) -> Result:
         counts = {k: v * 3 for k, v in counts.items()}
     n = ncores()
     seeds = shard_seeds(seed * 1000003 + (19 if prop == "C19" else 13) + (7 if intensify else 0), n)
-    jobs = [(prop, s, counts, intensify) for s in seeds]
+    jobs = [(prop, s, counts, intensify, i == 0) for i, s in enumerate(seeds)]
     total = Result(rule=RULE[prop])
     if n == 1:
         parts = [_shard(j) for j in jobs]
@@ -965,6 +998,17 @@ def replay(prop: str, replay_obj: dict) -> int:
         except Exception as e:  # noqa: BLE001
             m = f"driver error: {e}"
         print("model:", m)
+        # the model of the code as it was before the repairs (D8 / D11), for comparison
+        alt = None
+        if case["fn"] == "ensure_unique" and not case.get("multiseg"):
+            alt = dict(case, variant="euo")
+        elif case["fn"] == "import":
+            alt = dict(case, variant="impo")
+        if alt is not None:
+            try:
+                print("model of the unrepaired code:", Driver().run([model_line(alt)])[0])
+            except Exception as e:  # noqa: BLE001
+                print(f"driver error: {e}")
         if r["status"] != "ok":
             print("real code:", r)
             rc = 1
